@@ -827,7 +827,7 @@ class Stream:
                 self.c["candidates_first_above_horizon"] = self.c.get("candidates_first_above_horizon", 0) + 1
             try:
                 built = classes[cls](world, pid, rng)
-            except (ValueError, struct.error):
+            except (ValueError, struct.error, RuntimeError, OverflowError):
                 built = None
             if built is None:
                 self.c["class_material_missing"][cls] = self.c["class_material_missing"].get(cls, 0) + 1
